@@ -392,6 +392,32 @@ REGISTRY = {
         explanation="clamps and get_sieve_size() range for every cache description; sieve size multiple of 8 or power of two "
                     "for every configuration; counts independent of threads/piece length; iterator independent of block "
                     "lengths, hints and float values"),
+    "C11": Prop(
+        targets=["PsProps.C11"],
+        theorems=[("PsProps.C11", "Ps.Props.C11_error_sticky"), ("PsProps.C11", "Ps.Props.C11_error_state"),
+                  ("PsProps.C11", "Ps.Props.C11_next_same_as_cpp"), ("PsProps.C11", "Ps.Props.C11_prev_same_as_cpp"),
+                  ("PsProps.C11", "Ps.Props.C11_jump_inclusive_skipto_exclusive"),
+                  ("PsProps.C11", "Ps.Props.C11_wrappers_catch"), ("PsProps.C11", "Ps.Props.C11_wrappers_without_try"),
+                  ("PsProps.C11", "Ps.Props.C11_errno_only_on_error"), ("PsProps.C11", "Ps.Props.C11_type_switch")],
+        tie=combine(("iterc", streams.ITERC.tie), ("store", streams.STORE.tie), ("nth", streams.NTH.tie),
+                    ("print", streams.PRINT.tie)),
+        witness=combine_witness(streams.ITERC.witness, streams.STORE.witness, streams.NTH.witness),
+        assumptions=ITER_ASSUME + ["the wrapper facts are extracted textually from src/api-c.cpp / src/iterator-c.cpp by "
+                                   "translator/translate.py (try / catch / errno / return shapes), not from a C++ semantics"],
+        undischarged=["count_* C wrappers are covered by the wrapper-shape theorem and by the print/nth/store streams' C "
+                      "variants, not by a separate stream"],
+        explanation="C iterator = C++ iterator on non-failing calls; sticky error state; jump inclusive / skipto exclusive; "
+                    "wrapper shapes and type-code switch regenerated from the source and checked by decide"),
+    "C14": Prop(
+        targets=["PsProps.C14"],
+        theorems=[("PsProps.C14", "Ps.Props.C14_mutable_globals"), ("PsProps.C14", "Ps.Props.C14_interleaving")],
+        tie=combine(("multi", streams.MULTI.tie)), witness=combine_witness(streams.MULTI.witness),
+        assumptions=ITER_ASSUME + ["the inventory of variables with static storage duration is a textual scan "
+                                   "(translator/translate.py) of src/*.cpp, include/**/*.hpp (verification hooks excluded)"],
+        undischarged=["concurrent user threads: data-race freedom under the C++ memory model is not expressible; the "
+                      "frame theorem + the absence of shared mutable state is what the model can carry"],
+        explanation="no mutable static state except the two settings (regenerated inventory); every interleaving of "
+                    "operations on two iterators returns per object what it returns alone"),
     "C09": Prop(
         targets=["PsProps.C09"],
         theorems=[("PsProps.C09", "Ps.Props.C09_piece_exact"), ("PsProps.C09", "Ps.Props.C09_tiling"),
